@@ -50,6 +50,11 @@ FIXED = [
  ("C25","neither-before-nor-after:unlink@backup","the leftover backup of an interrupted","after a kill while the backup of a replaced day was being removed, queries returned the day's old and new rows together (the backup directory name parses as the same day) and every later merge failed with 'duplicate day timestamp'"),
  ("C29","live-rows-not-grouped:reduced-key:*","live query results are grouped","a live query of any type other than sip,dip,dport,proto returned the same group several times: in-memory flows kept their full key while stored flows are keyed by the query attributes"),
  ("C26","shared-key-rows-overwritten-not-summed","CSV rows sharing interface","two CSV rows with the same interface, timestamp and key were both reported as imported but only the last one was stored (Set instead of SetOrUpdate)"),
+ ("C12","counters:*:last-between-blocks","interface summaries also subtract","a listing whose 'last' lies in the final five minutes of a day (e.g. 23:57:29) still counted that day's later block (23:57:30): only the directory of the NEXT day, visited because of the write-interval margin, was treated as the last one"),
+ ("C27","disabled-interface-captured","interfaces configured with 'disable: true'","configuration {eth0, eth1:{disable:true}} started a capture on eth1; reconfiguring {eth0,eth1} -> {eth0, eth1:disable} panicked in RingBufferConfig.Equals (nil) with the manager lock held"),
+ ("C27","stale-configuration:ignore_vlans","CaptureConfig.Equals compares all","changing only ignore_vlans / extra_bpf_filters of an interface did not restart its capture: the source kept the old setting while Config() reported the new one"),
+ ("C27","overlapping-regexps-by-map-order","overlapping interface regexps resolve","with matchers {/eth.*/, /.*0/:promisc} the configuration applied to eth0 depended on Go map iteration order (41 of 200 runs promisc)"),
+ ("C27","selected-interface-not-captured:reconfigured","the error routine of a replaced capture","after Update(eth0 default -> eth0 promisc) returned, no capture ran on eth0: the old capture's logErrors routine looked the capture up by name and closed the newly registered one (300 of 300 runs at GOMAXPROCS=1)"),
 ]
 
 KNOWN = [
